@@ -275,7 +275,11 @@ func crashKind(wo *workerOutcome) (kind, msg string) {
 // confirmed crash or hang becomes a violation.
 func confirmCrash(prop, tier string, seed uint64, p *part, idx int, first *workerOutcome) (*Line, error) {
 	args := []string{"prop=" + prop, "tier=" + tier, "seed=" + strconv.FormatUint(seed, 10), "part=" + p.Name, "only=" + strconv.Itoa(idx), "from=" + strconv.Itoa(idx), "race=" + b2s(p.Race), "out=" + filepath.Join(verifDir, "replays")}
-	wo := spawn(p.Race, args, 120*time.Second, 180*time.Second)
+	caseFile := filepath.Join(workDir, fmt.Sprintf("case-%s-%d.json", p.Name, idx))
+	if propDefs[prop].Store != nil {
+		args = append(args, "casefile="+caseFile)
+	}
+	wo := spawn(p.Race, args, 120*time.Second, 600*time.Second)
 	if wo.summary != nil && wo.exitErr == nil {
 		// ran fine alone. If it reported a violation, keep that.
 		for _, l := range wo.lines {
@@ -291,17 +295,27 @@ func confirmCrash(prop, tier string, seed uint64, p *part, idx int, first *worke
 		return nil, fmt.Errorf("worker crash at %s index %d without plenc frames: %s", p.Name, idx, tail(wo.stderr, 3000))
 	}
 	// obtain the scenario for the replay file
-	dump := spawn(false, append(args, "dump=1"), 60*time.Second, 60*time.Second)
 	var sc *props.Scenario
-	for _, l := range dump.lines {
-		if l.Ev == "scenario" {
-			sc = l.Scenario
+	if propDefs[prop].Store == nil {
+		dump := spawn(false, append(args, "dump=1"), 60*time.Second, 60*time.Second)
+		for _, l := range dump.lines {
+			if l.Ev == "scenario" {
+				sc = l.Scenario
+			}
 		}
 	}
 	v := &props.Violation{Prop: prop, Kind: kind, Task: -1, OpIdx: -1, OpKind: "run", Msg: msg + " | " + firstPlencFrame(wo.stderr)}
 	rf := &props.ReplayFile{Property: prop, Engine: "sched", Violation: v, Scenario: sc, UsePolicy: true, Race: p.Race, Confirmed: true}
 	path := filepath.Join(verifDir, "replays", fmt.Sprintf("%s-%d-%s-%d-crash.json", prop, seed, p.Name, idx))
-	if sc == nil && propDefs[prop].Store == nil {
+	if propDefs[prop].Store != nil {
+		b, err := os.ReadFile(caseFile)
+		var c props.StoreCase
+		if err != nil || json.Unmarshal(b, &c) != nil {
+			return nil, fmt.Errorf("worker crashed at %s index %d but left no case file: %s", p.Name, idx, tail(wo.stderr, 1500))
+		}
+		rf.Engine, rf.Store, rf.UsePolicy = "store", &c, false
+		v.OpKind, v.Type = c.Mode, c.Reader
+	} else if sc == nil {
 		return nil, fmt.Errorf("could not dump the scenario of the crashing index %d", idx)
 	}
 	if err := rf.Write(path); err != nil {
@@ -424,7 +438,14 @@ func runParent(prop, tier string) int {
 		perPart[p.Name] = ps
 		allViols = append(allViols, res.viols...)
 		fmt.Printf("part %-7s runs=%d steps=%d switches=%d nontrivial=%d violations=%d wall=%.1fs\n", p.Name, ps.Runs, ps.Steps, ps.Switches, ps.Nontrivial, len(res.viols), ps.WallS)
-		if len(res.viols) > 0 && tier == "quick" {
+		unknown := 0
+		fs := loadFindings()
+		for _, l := range res.viols {
+			if matchFinding(fs, l.Viol) == nil {
+				unknown++
+			}
+		}
+		if unknown > 0 && tier == "quick" {
 			break // fail fast
 		}
 	}
